@@ -1,5 +1,4 @@
 import Gaftools.Props.C14
-import Gaftools.Props.TieA
 #print axioms Gaftools.C14.stepOk_iff
 #print axioms Gaftools.C14.has_iff
 #print axioms Gaftools.C14.pathExists_iff
@@ -7,5 +6,3 @@ import Gaftools.Props.TieA
 #print axioms Gaftools.C14.joined_rev
 #print axioms Gaftools.C14.reverse_walk
 #print axioms Gaftools.C14.reverse_spell
-#print axioms Gaftools.TieA.eDir_gen_eq_model
-#print axioms Gaftools.TieA.pathCase_gen_eq_model
